@@ -13,6 +13,7 @@ From TM Require Import C19.Query C19.Model C19.Proofs C19.SearchModel C19.Search
 From TM Require Import C19.BlockModel C19.BlockProofs C19.SearchRangeProofs.
 From TM Require Import C19.PhaseModel C19.PhaseProofs.
 From TM Require Import C19.ServiceModel C19.ServiceProofs.
+From TM Require Import C19.BusModel C19.BusProofs.
 Import ListNotations.
 Local Open Scope nat_scope.
 
@@ -310,6 +311,37 @@ Example C19_service_indexes_every_tx_nonvacuous :
   get (sv_tx s) "3"%string = Some svx_t3 /\ get (sv_tx s) "4"%string = Some svx_t4 /\
   bhas (sv_blk s) 1%Z = true /\ bhas (sv_blk s) 2%Z = false /\ bhas (sv_blk s) 3%Z = true.
 Proof. pose proof ServiceProofs.C19_service_indexes_every_tx_nonvacuous as H. cbv zeta in *. intuition. Qed.
+
+(* ------------------------------------------------------------------ the event bus
+   (types/event_bus.go; BusModel.v: the event map PublishEventNewBlock / NewBlockHeader / Tx hand
+   to pub/sub, as specified: composite key type.key -> all values in order, reserved pairs
+   appended). *)
+
+(* 10. For every Publish* method, every list of ABCI events and every attribute with a non-empty
+   key of an event with a non-empty type — whatever its Index flag, however often the event
+   type and the key are repeated — the event map has the composite key type.key and under it
+   exactly the values of ALL attributes with that composite key, in order, this attribute's
+   value among them; the same for the reserved pairs tm.event / tx.hash / tx.height the method
+   appends (an application emitting these keys itself makes them multi-valued). *)
+Theorem C19_eventbus_map_complete : forall k evs hash height,
+  (forall e a, In e evs -> e_type e <> EmptyString -> In a (e_attrs e) -> a_key a <> EmptyString ->
+     let ck := (e_type e ++ "." ++ a_key a)%string in
+     ev_lookup ck (bus_map k evs hash height)
+       = Some (vals_of ck (bus_pairs evs ++ reserved_pairs k hash height)) /\
+     In (a_val a) (vals_of ck (bus_pairs evs ++ reserved_pairs k hash height))) /\
+  (forall rk rv, In (rk, rv) (reserved_pairs k hash height) ->
+     ev_lookup rk (bus_map k evs hash height)
+       = Some (vals_of rk (bus_pairs evs ++ reserved_pairs k hash height)) /\
+     In rv (vals_of rk (bus_pairs evs ++ reserved_pairs k hash height))).
+Proof. exact BusProofs.C19_eventbus_map_complete. Qed.
+Print Assumptions C19_eventbus_map_complete.
+
+Example C19_eventbus_map_complete_nonvacuous :
+  ev_lookup "transfer.to"%string (bus_map KTx bus_ex_evs "AB"%string 3%Z) = Some ["alice"; "bob"]%string /\
+  matches [{| c_key := "transfer.to"; c_op := OpEq; c_arg := OStr "alice" |};
+           {| c_key := "transfer.amount"; c_op := OpGt; c_arg := OInt 6 |}]%string
+          (bus_map KTx bus_ex_evs "AB"%string 3%Z) = MTrue.
+Proof. vm_compute. auto. Qed.
 
 (* ------------------------------------------------------------------ non-vacuity *)
 
